@@ -253,6 +253,47 @@ fn write_checkpoint(path: &str, phase: usize, idx: u64, desc: &str) {
 
 /// Runs the phases of one shard and writes `<out>.json`, `<out>.distinct`; returns the process exit code
 /// (0 = ran to completion, whatever it found; the driver decides the verdict).
+/// One unrelated, failing use of the library on the current thread. Results are ignored; a panic here is not this
+/// property's business (C01 drives all of these inputs itself).
+pub fn perturb_history(r: &mut Rng) {
+    const SOURCES: [&str; 16] = [
+        "tmp/* unfinished",
+        "ab12/*",
+        "7e+/*x",
+        "\"xy\\n\"",
+        "q1 = \"pre\\q",
+        "\"open",
+        "w1 (",
+        ") w2",
+        "zz//c\n/*",
+        "k3 \"\\\"",
+        "12 34",
+        "u5 = = 1",
+        "((((1/0))))",
+        "nosuch9(1, \"s\")",
+        "v7 + (w8 = \"t\\",
+        "1.5e+ /* e",
+    ];
+    let src = SOURCES[r.below(SOURCES.len())];
+    let how = r.below(4);
+    let _ = std::panic::catch_unwind(move || match how {
+        0 => {
+            let _ = evalexpr::build_operator_tree::<evalexpr::DefaultNumericTypes>(src);
+        },
+        1 => {
+            let _ = evalexpr::eval(src);
+        },
+        2 => {
+            let c = evalexpr::HashMapContext::<evalexpr::DefaultNumericTypes>::new();
+            let _ = evalexpr::eval_with_context(src, &c);
+        },
+        _ => {
+            let mut c = evalexpr::HashMapContext::<evalexpr::DefaultNumericTypes>::new();
+            let _ = evalexpr::eval_with_context_mut(src, &mut c);
+        },
+    });
+}
+
 pub fn run_phases(cfg: &Cfg, mut phases: Vec<Box<dyn Phase>>, selfcheck: Result<String, String>) -> i32 {
     let mut out = Out::new(cfg.careful);
     let cp_path = format!("{}.progress", cfg.out);
@@ -304,6 +345,17 @@ pub fn run_phases(cfg: &Cfg, mut phases: Vec<Box<dyn Phase>>, selfcheck: Result<
                     }
                 }
                 out.pending_desc = None;
+                crate::observe::clear_last_panic();
+                // history perturbation: now and then the thread first does something unrelated that fails half-way
+                // (a case judged afterwards must not inherit anything from it); a function of seed, phase and index,
+                // so a replay of the case repeats it
+                {
+                    let mut pr = Rng::for_case(cfg.seed ^ 0x706f_6973, &name, idx);
+                    if pr.below(6) == 0 {
+                        perturb_history(&mut pr);
+                        *out.counters.entry("history perturbations before a case (failing parses / evaluations on the same thread)".to_string()).or_insert(0) += 1;
+                    }
+                }
                 crate::observe::clear_last_panic();
                 let r = {
                     let phase_ref = &mut *phase;
